@@ -1,47 +1,70 @@
 #!/usr/bin/env python3
 """Evaluate a seeded change: tools/seed_eval.py <prop> <k> [check-prop ...]
-Applies /tmp/seed_out/<prop>/change_k.diff to /repo, runs the demonstration and the checks, reverts /repo,
-and stores the change under /verif/seeded/<prop>-<k>/ with meta.json."""
-import json, os, shutil, subprocess, sys
+Takes /tmp/seedout-<prop>/<k>/{patch.diff,demo.py,notes.txt}, applies the patch to a scratch copy of /repo's working tree
+(outside /repo and /verif, removed afterwards), runs the demonstration (clean and changed), the existing tests and the
+checks (VERIF_REPO=<scratch>), and stores the change under /verif/seeded/<prop>-<k>/ with meta.json.
+Equivalent by hand: git -C /repo apply patch.diff; ./check <prop>; git -C /repo checkout -- ."""
+import json, os, shutil, subprocess, sys, tempfile
 prop, k = sys.argv[1], sys.argv[2]
 checks = sys.argv[3:] or [prop]
-src = f"/tmp/seed_out/{prop}"
-diff, demo, note = f"{src}/change_{k}.diff", f"{src}/demo_{k}.py", f"{src}/note_{k}.txt"
-env = dict(os.environ, PYTHONPATH="/repo", DATAITER_USE_NUMBA="false")
+src = f"/tmp/seedout-{prop}/{k}"
+if not os.path.isdir(src):
+    src = f"/verif/seeded/{prop}-{k}"
+diff, demo = f"{src}/patch.diff", f"{src}/demo.py"
+note = f"{src}/notes.txt"
+DESEL = ["dataiter/test/test_data_frame.py::TestDataFrame::test_read_json_columns", "dataiter/test/test_data_frame.py::TestDataFrame::test_read_json_dtypes",
+         "dataiter/test/test_data_frame.py::TestDataFrame::test_read_json_path", "dataiter/test/test_list_of_dicts.py::TestListOfDicts::test_drop_na",
+         "dataiter/test/test_list_of_dicts.py::TestListOfDicts::test_keys", "dataiter/test/test_list_of_dicts.py::TestListOfDicts::test_print_memory_use",
+         "dataiter/test/test_list_of_dicts.py::TestListOfDicts::test_print_na_counts"]
 def run(cmd, **kw):
     return subprocess.run(cmd, capture_output=True, text=True, **kw)
-assert run(["git", "-C", "/repo", "status", "--porcelain", "--untracked-files=no"]).stdout.strip() == "", "repo dirty"
-clean = run(["/venv/bin/python", demo], env=env, cwd="/tmp")
-r = run(["git", "-C", "/repo", "apply", diff])
-if r.returncode != 0:
-    print("patch does not apply:", r.stderr); sys.exit(2)
+d = tempfile.mkdtemp(prefix="seedeval")
 try:
-    changed = run(["/venv/bin/python", demo], env=env, cwd="/tmp")
-    tests = run(["/venv/bin/python", "-m", "pytest", "-q", "-x", "-p", "no:cacheprovider", "--timeout=900",
-                 "--deselect", "dataiter/test/test_data_frame.py::TestDataFrame::test_read_json_columns",
-                 "--deselect", "dataiter/test/test_data_frame.py::TestDataFrame::test_read_json_dtypes",
-                 "--deselect", "dataiter/test/test_data_frame.py::TestDataFrame::test_read_json_path",
-                 "--deselect", "dataiter/test/test_list_of_dicts.py::TestListOfDicts::test_drop_na",
-                 "--deselect", "dataiter/test/test_list_of_dicts.py::TestListOfDicts::test_keys",
-                 "--deselect", "dataiter/test/test_list_of_dicts.py::TestListOfDicts::test_print_memory_use",
-                 "--deselect", "dataiter/test/test_list_of_dicts.py::TestListOfDicts::test_print_na_counts"], cwd="/repo")
+    for sub in ("clean", "changed"):
+        shutil.copytree("/repo", os.path.join(d, sub), ignore=shutil.ignore_patterns(".git", "__pycache__", "*.pyc", ".pytest_cache"))
+    r = run(["git", "apply", os.path.abspath(diff)], cwd=os.path.join(d, "changed"))
+    if r.returncode != 0:
+        print("patch does not apply:", r.stderr); sys.exit(2)
+    env = lambda sub: dict(os.environ, PYTHONPATH=os.path.join(d, sub), DATAITER_USE_NUMBA=os.environ.get("DATAITER_USE_NUMBA", "false"))
+    clean = run(["/venv/bin/python", os.path.abspath(demo)], env=env("clean"), cwd=os.path.join(d, "clean"))
+    changed = run(["/venv/bin/python", os.path.abspath(demo)], env=env("changed"), cwd=os.path.join(d, "changed"))
+    tests = run(["/venv/bin/python", "-m", "pytest", "-q", "-x", "-p", "no:cacheprovider", "--timeout=900"] +
+                [x for t in DESEL for x in ("--deselect", t)] + ["dataiter/test"], cwd=os.path.join(d, "changed"))
     results = {}
     for c in checks:
-        cr = run(["/verif/check", c])
-        lines = [l for l in cr.stdout.splitlines() if l.startswith(("VIOLATION", "UNDECIDED", "KNOWN", c + ":"))]
+        cr = run(["/verif/check", c], env=dict(os.environ, VERIF_REPO=os.path.join(d, "changed")))
+        lines = [l for l in cr.stdout.splitlines() if l.startswith(("VIOLATION", "UNDECIDED", "KNOWN", "ERROR", c + ":"))]
         results[c] = {"exit": cr.returncode, "lines": lines[:8]}
+        for l in lines:
+            if l.startswith("VIOLATION") and "replay=" in l:
+                rp = l.split("replay=")[1].split()[0]
+                try:
+                    j = json.load(open(rp))
+                    results[c].setdefault("violated", []).append({"contract": j.get("contract"), "obligation": j.get("obligation"),
+                                                                  "failing_input": (j.get("failing_input") or {}).get("input") if isinstance(j.get("failing_input"), dict) else None})
+                except Exception:
+                    pass
 finally:
-    run(["git", "-C", "/repo", "checkout", "--", "."])
+    shutil.rmtree(d, ignore_errors=True)
 out = f"/verif/seeded/{prop}-{k}"
 os.makedirs(out, exist_ok=True)
-shutil.copy(diff, f"{out}/patch.diff"); shutil.copy(demo, f"{out}/demo.py")
-meta = {"property": prop, "needs": open(note).read().strip() if os.path.exists(note) else "",
+if os.path.abspath(src) != os.path.abspath(out):
+    shutil.copy(diff, f"{out}/patch.diff"); shutil.copy(demo, f"{out}/demo.py")
+old = {}
+if os.path.exists(f"{out}/meta.json"):
+    old = json.load(open(f"{out}/meta.json"))
+meta = {"id": f"{prop}-{k}", "property": prop,
+        "needs": open(note).read().strip() if os.path.exists(note) else old.get("needs", ""),
         "demo_clean_exit": clean.returncode, "demo_changed_exit": changed.returncode,
-        "existing_tests_pass_with_change": tests.returncode == 0, "tests_tail": tests.stdout.strip().splitlines()[-1:] ,
+        "existing_tests_pass_with_change": tests.returncode == 0, "tests_tail": tests.stdout.strip().splitlines()[-1:],
         "ran": [f"git -C /repo apply patch.diff; PYTHONPATH=/repo /venv/bin/python demo.py; ./check {c}; git -C /repo checkout -- ." for c in checks],
         "checks": results,
         "detected": any(v["exit"] == 1 for v in results.values())}
+st = "detected" if meta["detected"] else ("undecided" if any(v["exit"] == 2 for v in results.values()) else "missed")
+meta["detected_at_arrival"] = old.get("detected_at_arrival", st)
 json.dump(meta, open(f"{out}/meta.json", "w"), indent=1)
-print(json.dumps({k2: meta[k2] for k2 in ("demo_clean_exit", "demo_changed_exit", "existing_tests_pass_with_change", "detected")}))
+print(json.dumps({k2: meta[k2] for k2 in ("id", "demo_clean_exit", "demo_changed_exit", "existing_tests_pass_with_change", "detected")}))
 for c, v in results.items():
     print(c, v["exit"], *v["lines"][:4], sep="\n   ")
+    for x in v.get("violated", [])[:3]:
+        print("      ", x)
